@@ -108,7 +108,25 @@ fn run_one_on(src: &str, case: &Value, compiler: &mut tx3_cardano::Compiler) -> 
     let Some(t) = txs.get(str_of(&case["tx"])) else {
         return json!({"ev": "Pipeline", "outcome": "err", "stage": "front", "kind": "no-such-tx"});
     };
-    let args = tirj::args_from(&case["args"]);
+    let mut args = tirj::args_from(&case["args"]);
+    if case["args_via_request"].as_bool().unwrap_or(false) {
+        // the integers arrive the way a request carries them: as JSON number literals read by the service's own
+        // coercion. A literal it refuses is supplied typed instead (refusing is the boundary's right); one it accepts
+        // is used as it came out
+        for (_, v) in args.iter_mut() {
+            if let tx3_tir::reduce::ArgValue::Int(n) = v {
+                let text = n.to_string();
+                let got = guarded(|| {
+                    serde_json::from_str::<Value>(&text)
+                        .ok()
+                        .and_then(|j| tx3_resolver::interop::from_json(j, &tx3_tir::model::core::Type::Int).ok())
+                });
+                if let Ok(Some(a)) = got {
+                    *v = a;
+                }
+            }
+        }
+    }
     let inputs = staging::inputs_from(&case["utxos"]);
     let fee = int_from(&case["fee"]) as u64;
     let mut out = match stage_all(t.clone(), &args, &inputs, fee, compiler) {
